@@ -1,12 +1,122 @@
 import OmbottModel.Model.History
+import OmbottModel.Lemmas.History
+import OmbottModel.Lemmas.WsgiCast
 /-!
 C09 — Each response depends on its own request only; retained state is bounded.
+Property theorems only; helper lemmas live in `Lemmas/History.lean`.  All statements are about
+`serve` / `retained` of `Model/History.lean`, the functions the driver runs (`wsgi hist` lines),
+for every application (hooks, custom error handlers) and every finite request history.
 -/
 namespace Ombott.History
 open Py Ombott.Wsgi
 
-/-- placeholder until the history theorems are in (stage 1) -/
-theorem sharedInit_length : sharedInit.length = Gen.errorsMap.length := by
-  unfold sharedInit; simp
+/-- `response_history_independent`: on a reused worker thread the complete response to a request
+(status line, every header and cookie, body — framework error pages included) after **any**
+history of earlier requests, whatever their outcomes were (success, cookies / headers / status
+set by handlers and hooks, 404 / 405, undecodable path, malformed or oversized body raising the
+shared error objects, handler crash), equals the response the same request gets from a fresh
+application. -/
+theorem response_history_independent (app : App) (hist : List HReq) (r : HReq) :
+    (serve app (hist.foldl (serve₁ app) AppState.init) r).2 = (serve app AppState.init r).2 := by
+  have hcore := foldl_core app hist AppState.init
+  unfold serve
+  simp only
+  rw [resolve_core _ _ r hcore]
+  rw [wsgi_slots_irrelevant app (hist.foldl (serve₁ app) AppState.init).slots AppState.init.slots]
+
+/-- nothing a request sets or sends is ever written to the shared `HTTPError` objects of
+`errors_map`: after any history their status, headers, cookies and body are the initial ones -/
+theorem shared_errors_unchanged (app : App) (hist : List HReq) :
+    (hist.foldl (serve₁ app) AppState.init).shared.map SharedErr.core =
+      sharedInit.map SharedErr.core :=
+  foldl_core app hist AppState.init
+
+/-- the number of shared error objects, from the extracted `errors_map` -/
+theorem shared_count : sharedInit.length = 3 := by decide
+
+/-- `retained_bounded`: after serving any history — in particular N failing requests of any
+kind — at most 4 requests have per-request objects (environ, input stream) reachable from the
+application: the one the reused request object points at and one per shared error object (the
+frames of its last raise; `_raise` resets the traceback before raising).  The bound is a
+numeral, independent of the history. -/
+theorem retained_bounded (app : App) (hist : List HReq) :
+    (retained (hist.foldl (serve₁ app) AppState.init)).length ≤ 4 := by
+  have htb := foldl_tb app hist AppState.init (by
+    intro e he
+    unfold AppState.init sharedInit at he
+    simp only [List.mem_map] at he
+    obtain ⟨x, _, rfl⟩ := he
+    exact Nat.zero_le 1)
+  have hflat := flatMap_tb_length _ htb.1
+  rw [htb.2] at hflat
+  have hlen : AppState.init.shared.length = 3 := shared_count
+  unfold retained
+  refine Nat.le_trans (dedup_length_le _) ?_
+  simp only [List.length_append]
+  cases (hist.foldl (serve₁ app) AppState.init).slots.req with
+  | none => simp only [List.length_nil]; omega
+  | some q => simp only [List.length_cons, List.length_nil]; omega
+
+/-- `retained_bounded` in the form "there is a constant" -/
+theorem retained_bounded_exists :
+    ∃ K : Nat, ∀ (app : App) (hist : List HReq), (retained (hist.foldl (serve₁ app) AppState.init)).length ≤ K :=
+  ⟨4, retained_bounded⟩
+
+/-- the one environ the request object keeps is the last request's -/
+theorem request_slot_is_last (app : App) (st : AppState) (r : HReq) :
+    (serve app st r).1.slots.req = some { id := r.req.id, urlRepr := r.req.urlRepr } := by
+  have hreq : (resolve st.shared r).1.id = r.req.id ∧ (resolve st.shared r).1.urlRepr = r.req.urlRepr := by
+    unfold resolve
+    split
+    · split <;> exact ⟨rfl, rfl⟩
+    · exact ⟨rfl, rfl⟩
+  unfold serve
+  simp only
+  rw [wsgi_req, hreq.1, hreq.2]
+
+/-! ### NonVacuity: concrete histories -/
+section NonVacuity
+
+def exApp : App :=
+  { before := [], after := [{ effs := [.setHeader "X-After".toList "1".toList], res := .ok }], errHandlers := [] }
+
+def mkReq (id : Nat) (pathOK : Bool) (route : Route) : Req :=
+  { id := id, isHead := false, fileWrapper := false, pathOK := pathOK, path := "/x".toList,
+    urlRepr := ("'http://h/x" ++ toString id ++ "'").toList, route := route }
+
+/-- request 1 sets a cookie, a header and a status -/
+def cookieReq : HReq :=
+  { req := mkReq 1 true (.found { effs := [.setCookie "sid".toList "abc".toList, .setHeader "X-A".toList "1".toList,
+                                            .setStatus (.code 201)], res := .returns (.text "ok".toList) }),
+    bodyErr := none }
+
+/-- request 2 has an undecodable path -/
+def badPathReq : HReq := { req := mkReq 2 false .notFound, bodyErr := none }
+
+/-- request 3 reads an oversized body -/
+def bigBodyReq (id : Nat) : HReq :=
+  { req := mkReq id true (.found { effs := [], res := .returns (.text "unreached".toList) }),
+    bodyErr := some "BodySizeError" }
+
+/-- defect #9 of the design (fixed by caea252) stated on the model: after the cookie-setting
+request the 400 for the undecodable path carries neither the cookie nor request 1's URL -/
+example :
+    let r := (serve exApp (serve₁ exApp AppState.init cookieReq) badPathReq).2
+    r.line = "400 Bad Request".toList ∧ r.hdrs.all (fun h => h.1 != "Set-Cookie".toList) = true ∧
+    r = (serve exApp AppState.init badPathReq).2 := by decide +kernel
+
+/-- defect #10 (fixed by d7d7db2) stated on the model: five oversized bodies in a row keep one
+request alive, not five -/
+example : retained ([bigBodyReq 1, bigBodyReq 2, bigBodyReq 3, bigBodyReq 4, bigBodyReq 5].foldl
+    (serve₁ exApp) AppState.init) = [5] := by decide +kernel
+
+/-- the bound is attained up to the three shared objects: one failing request per mapped class
+and then a different request -/
+example : (retained ([{ bigBodyReq 1 with bodyErr := some "RequestError" },
+    { bigBodyReq 2 with bodyErr := some "BodyParsingError" }, bigBodyReq 3,
+    { bigBodyReq 7 with bodyErr := none }].foldl
+    (serve₁ exApp) AppState.init)).length = 4 := by decide +kernel
+
+end NonVacuity
 
 end Ombott.History
